@@ -319,6 +319,16 @@ func ruleRaisedValueFits(c *Ctx) {
 					push = b.Instrs[i].(*ssa.Call)
 				}
 			}
+			if push == nil {
+				// ... or hoisted above the branch the raise sits in: the nearest push that dominates the raise
+				allInstrs(fn, func(cand ssa.Instruction) {
+					if isCallTo(cand, regPush, lsPush) && cand.Block() != b && g.Dominates(cand, in) {
+						if push == nil || g.Dominates(push, cand) {
+							push = cand.(*ssa.Call)
+						}
+					}
+				})
+			}
 			okc, how := false, "no push of the raised value precedes the raise in its block"
 			if push != nil && push.Call.StaticCallee() == regPush {
 				how = "the unchecked registry push is not preceded by a slot forced under IsFull()"
